@@ -784,6 +784,8 @@ pub fn evaluate(problem: &api::Problem, matrices: &[api::Matrix], solution: &sol
         ];
     }
 
+    check_relations(problem, solution, &mut v);
+
     // shared resource capacity
     for res in problem.fleet.resources.iter().flatten() {
         let api::VehicleResource::Reload { id, capacity } = res;
@@ -871,5 +873,88 @@ impl StatAcc {
         self.serving += o.serving;
         self.waiting += o.waiting;
         self.break_time += o.break_time;
+    }
+}
+
+
+// ---------------------------------------------------------------------------------------------
+// relation pinning (documentation: concepts/pragmatic/problem/relations.md)
+// ---------------------------------------------------------------------------------------------
+
+fn is_reserved(id: &str) -> bool {
+    matches!(id, "departure" | "arrival" | "break" | "reload" | "recharge")
+}
+
+/// vehicle: every customer job of a relation is served by the named vehicle shift;
+/// order (sequence, strict): the jobs are visited in the listed order;
+/// contiguity (strict): no other customer job in between; departure / arrival anchors of a strict relation.
+/// A break/reload between two jobs of a strict relation is not decided by the documentation (counted as unspecified).
+fn check_relations(problem: &api::Problem, solution: &sol::Solution, v: &mut Verdict) {
+    let Some(relations) = problem.plan.relations.as_ref() else { return };
+    let flats: Vec<Option<Vec<FlatAct>>> = solution.tours.iter().map(flatten).collect();
+    for (ri, rel) in relations.iter().enumerate() {
+        let shift = rel.shift_index.unwrap_or(0);
+        let ctx = format!("relation {ri} ({:?} on {} shift {shift})", rel.type_field, rel.vehicle_id);
+        v.fact("relation_present");
+        let own = solution.tours.iter().position(|t| t.vehicle_id == rel.vehicle_id && t.shift_index == shift);
+        let mut ids: Vec<&String> = vec![];
+        for id in rel.jobs.iter().filter(|id| !is_reserved(id)) {
+            if !ids.contains(&id) {
+                ids.push(id);
+            }
+        }
+        // vehicle pinning
+        for id in ids.iter() {
+            let served: Vec<usize> = flats.iter().enumerate().filter(|(_, f)| f.as_ref().is_some_and(|f| f.iter().any(|a| &&a.job_id == id))).map(|(ti, _)| ti).collect();
+            if served.iter().any(|ti| Some(*ti) != own) {
+                v.add(Prop::Feasibility, "relation-vehicle", format!("{ctx}: job {id} is served by tour(s) {served:?}, the relation names tour {own:?}"));
+            }
+            if served.is_empty() {
+                v.add(Prop::Feasibility, "relation-job-unassigned", format!("{ctx}: job {id} is not served at all"));
+            }
+        }
+        let Some(acts) = own.and_then(|ti| flats[ti].as_ref()) else { continue };
+        if matches!(rel.type_field, api::RelationType::Any) {
+            v.fact("relation_any");
+            continue;
+        }
+        // position of the (first) activity of every listed customer job
+        let pos: Vec<Option<usize>> = rel.jobs.iter().map(|id| if is_reserved(id) { None } else { acts.iter().position(|a| &a.job_id == id) }).collect();
+        let listed: Vec<usize> = pos.iter().flatten().copied().collect();
+        if listed.windows(2).any(|w| w[0] >= w[1]) {
+            v.add(Prop::Feasibility, "relation-order", format!("{ctx}: jobs {:?} are visited at activity positions {listed:?}", rel.jobs));
+            continue;
+        }
+        if matches!(rel.type_field, api::RelationType::Sequence) {
+            v.fact("relation_sequence");
+            continue;
+        }
+        v.fact("relation_strict");
+        // strict: anchors and contiguity
+        let is_customer = |a: &FlatAct| !is_reserved(&a.job_id) && matches!(a.kind.as_str(), "pickup" | "delivery" | "service" | "replacement");
+        let check_gap = |v: &mut Verdict, from: usize, to: usize, what: String| {
+            // activities strictly between positions `from` and `to`
+            let between = &acts[from + 1..to];
+            if between.iter().any(|a| is_customer(a)) {
+                v.add(Prop::Feasibility, "relation-contiguity", format!("{ctx}: {what}: other jobs {:?} in between", between.iter().filter(|a| is_customer(a)).map(|a| a.job_id.clone()).collect::<Vec<_>>()));
+            } else if !between.is_empty() {
+                v.unspec("relation-strict-marker-in-between");
+            }
+        };
+        for w in listed.windows(2) {
+            check_gap(v, w[0], w[1], format!("between activity positions {} and {}", w[0], w[1]));
+        }
+        if rel.jobs.first().is_some_and(|j| j == "departure") {
+            if let Some(first) = listed.first() {
+                v.fact("relation_strict_departure_anchor");
+                check_gap(v, 0, *first, "after departure".to_string());
+            }
+        }
+        if rel.jobs.last().is_some_and(|j| j == "arrival") && acts.last().is_some_and(|a| a.kind == "arrival") {
+            if let Some(last) = listed.last() {
+                v.fact("relation_strict_arrival_anchor");
+                check_gap(v, *last, acts.len() - 1, "before arrival".to_string());
+            }
+        }
     }
 }
